@@ -33,6 +33,7 @@ class StepCounter:
         self._base_rss = None
         self._prev = None
         self.tripped = False
+        self.where = None
 
     def _global(self, frame, event, arg):
         co = frame.f_code
@@ -46,7 +47,8 @@ class StepCounter:
             if self.budget is not None and self.steps > self.budget:
                 self.tripped = True
                 self.budget = None  # raise once; let the stack unwind
-                raise StepBudgetExceeded(self.steps)
+                self.where = "%s:%d in %s" % (os.path.basename(frame.f_code.co_filename), frame.f_lineno, frame.f_code.co_name)
+                raise StepBudgetExceeded(self.steps, self.where)
             if self.mem_budget is not None and self.steps % 2000 == 0:
                 if (_rss_pages() - self._base_rss) * 4096 > self.mem_budget:
                     self.tripped = True
